@@ -1011,3 +1011,33 @@ Proof. reflexivity. Qed.
 Print Assumptions gen_q_one_legs_all.
 Print Assumptions gen_q_get_center.
 Print Assumptions gen_q_get_center_empty.
+
+(* ... so "no leg is empty and the legs behind the centre are ordered by length" is an invariant of append: the second half of the hypothesis of
+   gen_q_append_sorted is preserved as well *)
+Lemma Forall_insert_atL {A} (P : A -> Prop) x : P x -> forall p L, Forall P L -> Forall P (insert_atL p x L).
+Proof.
+  intros Hx. induction p as [|p IH]; intros L HL; [destruct L; constructor; assumption|].
+  destruct L as [|a L]; [cbn; constructor; [exact Hx|constructor]|]. inversion HL; subst. cbn [insert_atL]. constructor; [assumption|apply IH; assumption].
+Qed.
+Lemma Forall_delete_atL {A} (P : A -> Prop) : forall L k, Forall P L -> Forall P (delete_atL k L).
+Proof. intros L k HL. rewrite Forall_forall in *. intros x Hx. apply HL. exact (In_delete_atL x L k Hx). Qed.
+Theorem gen_q_append_nonempty legs v lit legs' : Forall (fun leg : list pstr => leg <> []) legs -> py_Q_append legs false v lit = FRet legs' ->
+  Forall (fun leg : list pstr => leg <> []) legs'.
+Proof.
+  intros HN H. unfold py_Q_append in H. cbv beta iota zeta in H.
+  destruct (py_Q_find legs lit) as [[li vi]| | | |] eqn:EF; try discriminate H.
+  destruct (li =? -1) eqn:E1; [discriminate H|]. destruct (li =? 0) eqn:E0.
+  - injection H as <-. apply Forall_insert_atL; [discriminate|exact HN].
+  - destruct (idx_ok legs li) eqn:EI; [|discriminate H].
+    destruct (negb (vi =? Z.of_nat (length (list_get [] legs li)) - 1)); [discriminate H|].
+    set (leg := list_get [] legs li) in *. set (T1 := delete_atL (Z.to_nat (norm_idx (length legs) li)) legs) in *.
+    assert (HT1 : Forall (fun leg : list pstr => leg <> []) T1) by (apply Forall_delete_atL; exact HN).
+    assert (Hx : leg ++ [v] <> []) by (destruct leg; discriminate).
+    destruct (idx_ok T1 (Z.of_nat (length T1) - 1)) eqn:EL; [|discriminate H].
+    destruct (Z.of_nat (length (leg ++ [v])) >=? Z.of_nat (length (list_get [] T1 (Z.of_nat (length T1) - 1)))) eqn:EG.
+    + injection H as <-. apply Forall_app. split; [exact HT1|constructor; [exact Hx|constructor]].
+    + apply append_loop_inserts in H.
+      * destruct H as [p [_ ->]]. apply Forall_insert_atL; [exact Hx|exact HT1].
+      * intros i Hi. apply in_map_iff in Hi. destruct Hi as [k0 [<- Hk0]]. apply in_seq in Hk0. lia.
+Qed.
+Print Assumptions gen_q_append_nonempty.
